@@ -25,6 +25,8 @@ def run(prog, chk):
     ]
     chk.decided += ["an explicit useProductionNames reaches the renaming step as given: PostProcessor.process hands process_glyph_names its untouched parameter, and inside process_glyph_names the lib "
                     "keys are only consulted under `useProductionNames is None` (production names ON means renamed, whatever the UFO lib says) (R11.8)"]
+    chk.decided += ["every compiled master - sparse layer masters included - goes through the post-processor: compile_one calls self.postprocess on the font it returns under no condition, so the masters of "
+                    "one family are renamed alike (R11.9)"]
     chk.not_decided += ["byte identity of the other tables (fontTools compile / reload)", "the glyph order itself"]
     chk.decided += ["each variable font is post-processed with its own UFO / info / glyph set, never with compiler state of the last interpolable sub-space (R11.7)"]
     chk.guard(r111, prog, chk)
@@ -35,6 +37,7 @@ def run(prog, chk):
     chk.guard(r116, prog, chk)
     chk.guard(r117, prog, chk)
     chk.guard(r118, prog, chk)
+    chk.guard(r119, prog, chk)
 
 
 def _keep_var(prog, f) -> str:
@@ -485,7 +488,26 @@ def r118(prog, chk):
     chk.minimum("R11.8", 2)
 
 
+# ----------------------------------------------------------------------------- R11.9
+def r119(prog, chk):
+    ix = prog.ix
+    f = ix.get_method("ufo2ft._compilers.baseCompiler.BaseInterpolatableCompiler", "compile_one", own=True)
+    pp = [c for c in calls_named(f, "postprocess")]
+    ok = len(pp) == 1 and not [g for g in may_conds(prog, f, pp[0]) if g.kind in ("if", "boolop", "ifexp", "while")]
+    if ok:
+        rets = A.returns_of(f.node)
+        st = ix.enclosing_stmt(pp[0])
+        tv = st.targets[0].id if isinstance(st, ast.Assign) and isinstance(st.targets[0], ast.Name) else None
+        ok = tv is not None and len(rets) == 1 and T(rets[0].value) == tv and pp[0].args and T(pp[0].args[0]) == tv
+    chk.ob("R11.9", f"{f.short}|every master is post-processed, whatever its layer", ok, where(f, pp[0]) if pp else where(f), detail="ttf = self.postprocess(ttf, ufo, glyphSet); return ttf",
+           message=f"{f.short}: a master can be returned without going through self.postprocess (or only under a condition on the layer): with production names on, full masters are "
+                   f"renamed and sparse masters keep their source names - the masters of one family no longer agree on glyph names")
+    chk.minimum("R11.9", 1)
+
+
 MUTANTS = [
+    M("sparse layer masters skip post-processing (seeded C11l)", "ufo2ft/_compilers/baseCompiler.py", "BaseInterpolatableCompiler.compile_one",
+      "ttf = self.postprocess(ttf, ufo, glyphSet)", "if layerName is None:\n    ttf = self.postprocess(ttf, ufo, glyphSet)", rule="R11.9"),
     M("explicit useProductionNames ignored when the lib says keepGlyphNames=False (seeded C11k)", "ufo2ft/postProcessor.py", "PostProcessor.process",
       "self.process_glyph_names(useProductionNames)", "if useProductionNames is not None and (not self.ufo.lib.get(KEEP_GLYPH_NAMES, True)):\n    useProductionNames = None\nself.process_glyph_names(useProductionNames)", rule="R11.8"),
     M("intermediate save of the renaming reload does not recalculate bounding boxes (seeded C11i)", "ufo2ft/postProcessor.py", "_reloadFont",
